@@ -104,8 +104,11 @@ func releaseTableFile(uri string) bool {
 }
 
 type TableDocument struct {
-	StartKey    string
-	EndKey      string
+	// Keys are arbitrary bytes. As []byte they are base64 encoded in the JSON
+	// checkpoint document; a string would have its invalid UTF-8 sequences
+	// replaced, changing the table's key range.
+	StartKey    []byte
+	EndKey      []byte
 	Size        uint64
 	EntriesSize uint64
 	URI         string
@@ -123,8 +126,8 @@ func NewTableFromDocument(fs storage.FileSystem, dataOwnership kv.DataOwnership,
 		file:        fs.Open(doc.URI),
 		size:        int64(doc.Size),
 		entriesSize: int64(doc.EntriesSize),
-		startKey:    []byte(doc.StartKey),
-		endKey:      []byte(doc.EndKey),
+		startKey:    doc.StartKey,
+		endKey:      doc.EndKey,
 		startSeqNum: doc.StartSeqNum,
 		endSeqNum:   doc.EndSeqNum,
 	}
@@ -139,8 +142,8 @@ func NewTableFromDocument(fs storage.FileSystem, dataOwnership kv.DataOwnership,
 	params := CleanupParams{
 		deleteFunc:    t.file.CreateDeleteFunc(),
 		dataOwnership: dataOwnership,
-		startKey:      []byte(doc.StartKey),
-		endKey:        []byte(doc.EndKey),
+		startKey:      doc.StartKey,
+		endKey:        doc.EndKey,
 		uri:           doc.URI,
 	}
 
@@ -397,8 +400,8 @@ func (t *Table) ensureMetadataLoaded() {
 
 func (t *Table) Document() TableDocument {
 	return TableDocument{
-		StartKey:    string(t.startKey),
-		EndKey:      string(t.endKey),
+		StartKey:    t.startKey,
+		EndKey:      t.endKey,
 		Size:        uint64(t.size),
 		EntriesSize: uint64(t.entriesSize),
 		URI:         t.file.URI(),
